@@ -89,7 +89,8 @@ theorem closePosition_msgs (q : Q) (e e' : E) (env : Env) (s v l : Nat) (msgs : 
     let p := readPosition e v s
     msgs = [swapOutputMsg p.vamm (directionToSide p.direction) p.size.value l REPLY_CLOSE]
     ∨ (∃ n, msgs = [swapInputMsg p.vamm (positionToSide p.size) n 0 true REPLY_PARTIAL_CLOSE]
-        ∧ q.isOverFluct v .removeFromAmm p.size.value = .ok true ∧ e.cfg.plr < e.cfg.decimals) := by
+        ∧ q.isOverFluct v (if Integer.gt p.size Integer.zero then .addToAmm else .removeFromAmm) p.size.value = .ok true
+        ∧ e.cfg.plr < e.cfg.decimals) := by
   sorry
 
 /-- the second leg of a reversal may not leave the band either -/
